@@ -30,3 +30,11 @@ package randdata
 //@   ensures len(choix) == len(ty.Members) && len(ty.Members) > 0
 //@   loop ty.Members.1 index n
 //@   loop ty.Members.1 invariant len(choix) == n
+
+// skip lemma: a field that is unexported or tagged gomacro-data:"ignore" contributes no assignment and no
+// recursive generation (it keeps its zero value in the generated function)
+//@ func context.codeForStruct
+//@   props C15
+//@   requires ty != nil && (forall i int :: 0 <= i && i < len(ty.Fields) ==> ty.Fields[i].Field != nil)
+//@   modifies *
+//@   loop ty.Fields.1 endassert !field.Field.Exported() || field.Tag.Get("gomacro-data") == "ignore" ==> fieldsCode == athead(fieldsCode) && decls == athead(decls)
